@@ -429,4 +429,48 @@ def CatalogSp.Valid (E : Codec) (c : CatalogSp) : Prop :=
 /-- the file header comment it spells -/
 def CatalogSp.headerText (c : CatalogSp) : Text := (c.header.map HeaderLine.text).foldl joinComment []
 
+/-! ## the file: rendering a spelling to bytes -/
+
+/-- a line after the last message line: noise, or a translator comment starting in the first column.  `Codecs.open` drops them. -/
+inductive TailSp where
+  | noise (z : Noise)
+  | comment (rest : Text)
+
+def TailSp.render : TailSp → Text
+  | .noise z => z.render
+  | .comment rest => '#' :: rest
+
+def TailSp.Valid : TailSp → Prop
+  | .noise z => z.Valid
+  | .comment rest => rest ≠ [] ∧ ∀ c r, rest = c :: r → c = ' ' ∨ ¬ (c = '.' ∨ c = ':' ∨ c = ',' ∨ c = '|' ∨ c = '~')
+
+/-- a spelled file: the catalog's lines, then trailing lines -/
+structure FileSp where
+  cat : CatalogSp
+  tail : List TailSp
+
+def FileSp.lines (f : FileSp) : List Text := f.cat.lines ++ f.tail.map TailSp.render
+
+/-- **`Spec.render`, text level**: the file's text is its physical lines one after the other (each carries its line feed) -/
+def FileSp.text (f : FileSp) : Text := f.lines.flatten
+
+/-- a physical line: text without line feed, then the line feed -/
+def IsLine (l : Text) : Prop := ∃ c, l = c ++ ['\n'] ∧ '\n' ∉ c
+
+/-- the bytes of a text in the charset, character by character -/
+def encodeText (E : Codec) : Text → Option Bytes
+  | [] => some []
+  | c :: cs =>
+    match E.encode c, encodeText E cs with
+    | some b, some bs => some (b ++ bs)
+    | _, _ => none
+
+/-- **`Spec.render`**: catalog + spelling choices + charset ↦ the bytes of the PO file (`none`: some character is not encodable) -/
+def FileSp.render (E : Codec) (f : FileSp) : Option Bytes := encodeText E f.text
+
+/-- every line ends with its only line feed; no line of the catalog part is written as an atypical comment (`#` directly followed
+    by something other than a blank or `. : , | ~` — `Codecs.open` rewrites those to `# …`, the form the spelling takes) -/
+def FileSp.Valid (E : Codec) (f : FileSp) : Prop :=
+  f.cat.Valid E ∧ (∀ t ∈ f.tail, t.Valid) ∧ (∀ l ∈ f.lines, IsLine l) ∧ ∀ l ∈ f.cat.lines, I18n.Po.atypical l = false
+
 end I18n.Spec.PoSpelling
